@@ -405,6 +405,9 @@ impl Run {
             cases,
             failure_persistence: None,
             max_shrink_iters: 4096,
+            // shrinking only minimises the reproducer; cap it so that failing cases that are slow to run
+            // (e.g. calls abandoned at the trap budget) cannot hold a worker until the watchdog
+            max_shrink_time: 90_000,
             max_global_rejects: 65536,
             ..Config::default()
         };
